@@ -776,7 +776,7 @@ def do_check(pid, tier, seed, only=None, keep=False, jobs=None, no_replay=False)
         for l in lines:
             print(l)
         print("[%s] tier=%s harnesses=%d ok=%d violations=%d inconclusive=%d known=%d wall=%.0fs exit=%d" % (
-            pid, tier, len(results), len(ok), len(reproduced), len(inconclusive), len(known_hits),
+            pid, tier, len(results), len(ok), ev["violations"], len(inconclusive), len(known_hits),
             time.time() - t_start, exit_code))
         return exit_code
     finally:
